@@ -223,6 +223,13 @@ int cmdWalk(int argc, char** argv) {
 			m >> pos >> e;
 		}
 		crashes++;
+		// the crashed child may have left a partial line (stdio flushes full buffers): cut back to the last complete one
+		{
+			std::string all = readFile(outPath);
+			size_t nl = all.rfind('\n');
+			size_t keep = nl == std::string::npos ? 0 : nl + 1;
+			if (keep != all.size()) truncate(outPath.c_str(), (off_t) keep);
+		}
 		FILE* out = fopen(outPath.c_str(), "a");
 		int n = order[pos];
 		std::string act = e >= 0 ? w.nodes[n].out[(size_t) e].act : std::string("{\"op\":\"SaveReload\"}");
